@@ -1419,7 +1419,101 @@ class RegistrationHistory(Suite):
         return Info(rereg_after_served and n_raise >= 2, labels)
 
 
-SUITES = [HandlerChoice(), DefaultRendering(), RegistrationHistory()]
+class _ResetExc(Exception):
+    pass
+
+
+class ResetEnum(Suite):
+    """Exhaustive: what the responder had set so far (any subset of text / data / media, the media optionally already
+    rendered through the public render_body()) x what the handler of the raised exception does (nothing, status only,
+    sets text, sets media, raises a body-less HTTPStatus, raises an HTTPError) x stack: nothing the responder prepared may
+    reach the client; the body is exactly what the handler (or the rendering of what it raised) defines."""
+
+    name = 'reset_enum'
+    exhaustive = True
+    budget = {'quick': 1, 'thorough': 1}
+
+    def cases(self, tier):
+        import itertools
+        for stack in ('wsgi', 'asgi'):
+            for pre in itertools.product((False, True), repeat=3):
+                for render in (False, True):
+                    for action in ('noop', 'status', 'text', 'media', 'raise_status', 'raise_error'):
+                        yield {'stack': stack, 'pre': list(pre), 'render': render, 'action': action}
+
+    def run(self, case):
+        asyn = case['stack'] == 'asgi'
+        pre_text, pre_data, pre_media = case['pre']
+        action = case['action']
+
+        def prepare(resp):
+            if pre_text:
+                resp.text = 'prepared text'
+            if pre_data:
+                resp.data = b'prepared data'
+            if pre_media:
+                resp.media = {'prepared': 'media'}
+
+        def compose(resp):
+            if action == 'status':
+                resp.status = 202
+            elif action == 'text':
+                resp.text = 'handler text'
+            elif action == 'media':
+                resp.media = {'handler': 1}
+            elif action == 'raise_status':
+                raise falcon.HTTPStatus(falcon.HTTP_203)
+            elif action == 'raise_error':
+                raise falcon.HTTPConflict(title='handler conflict')
+
+        if asyn:
+            class R(object):
+                async def on_get(self, req, resp):
+                    prepare(resp)
+                    if case['render']:
+                        await resp.render_body()
+                    raise _ResetExc()
+
+            async def handler(req, resp, ex, params):
+                compose(resp)
+            app = falcon.asgi.App()
+        else:
+            class R(object):
+                def on_get(self, req, resp):
+                    prepare(resp)
+                    if case['render']:
+                        resp.render_body()
+                    raise _ResetExc()
+
+            def handler(req, resp, ex, params):
+                compose(resp)
+            app = falcon.App()
+        app.add_route('/', R())
+        app.add_error_handler(_ResetExc, handler)
+        res = A.call(app, A.build_scope('GET', '/')) if asyn else W.call(app, W.build_environ('GET', '/'))
+        if res.error is not None:
+            raise Violation('exception_escaped', 'case=%r: %r escaped the app callable' % (case, res.error))
+        code = {'noop': 200, 'status': 202, 'text': 200, 'media': 200, 'raise_status': 203, 'raise_error': 409}[action]
+        ctx = 'case=%r: status %r body %r' % (case, res.code, res.body)
+        if res.code != code:
+            raise Violation('reset_wrong_status', ctx)
+        if action in ('noop', 'status', 'raise_status'):
+            ok = res.body == b''
+        elif action == 'text':
+            ok = res.body == b'handler text'
+        elif action == 'media':
+            ok = json.loads(res.body.decode()) == {'handler': 1}
+        else:
+            try:
+                ok = json.loads(res.body.decode()) == {'title': 'handler conflict'}
+            except ValueError:
+                ok = False
+        if not ok:
+            raise Violation('prepared_body_survived', 'what the responder had set before raising must be discarded; ' + ctx)
+        return Info(any(case['pre']), [case['stack'], 'handler:' + action] + (['rendered_before_raise'] if case['render'] else []))
+
+
+SUITES = [HandlerChoice(), DefaultRendering(), RegistrationHistory(), ResetEnum()]
 
 def render_body_dropped(suite_name, case, violation):
     """Finding F25: whatever the error handling composes for an exception raised while the body is rendered,
